@@ -92,6 +92,15 @@ def build_jobs():
                  "new": [{"row": ["interface", "100GE1/0/1"], "kids": [{"row": ["ipv6", "enable"], "kids": []},
                                                                      {"row": ["ipv6", "nd", "ra", "Min-Interval", "200"], "kids": []},
                                                                      {"row": ["ipv6", "nd", "ra", "max-interval", "600"], "kids": []}]}]})
+    # reference tracking: the configs of a referring and a defining generator are inserted into THIS job's orderer (a copy of the cached
+    # vendor ordering must be used); a later job on the same interface name must be ordered as in a fresh process
+    iface_cfg = [{"row": ["interface", "100GE1/0/1"], "kids": [{"row": ["traffic-policy", "TP", "inbound"], "kids": []}]}]
+    qos_cfg = [{"row": ["traffic", "policy", "TP"], "kids": [{"row": ["classifier", "C", "behavior", "B"], "kids": []}]}]
+    jobs.append({"name": "reftrack", "kind": "shipped", "model": "Huawei CE6870", "old": [], "new": qos_cfg + iface_cfg,
+                 "ref": {"ref": iface_cfg, "def": qos_cfg}})
+    jobs.append({"name": "isis-after-reftrack", "kind": "shipped", "model": "Huawei CE6870", "old": [],
+                 "new": [{"row": ["interface", "100GE1/0/1"], "kids": [{"row": ["isis", "enable", "1"], "kids": []}]},
+                         {"row": ["isis", "1"], "kids": [{"row": ["network-entity", "49.0001.0000.0000.0001.00"], "kids": []}]}]})
     jobs.append({"name": "unknown-rows", "kind": "shipped", "model": "Cisco Catalyst C3750",
                  "old": [{"row": ["zz-unknown-row", "1"], "kids": []}, {"row": ["hostname", "a"], "kids": []}],
                  "new": [{"row": ["zz-unknown-row", "2"], "kids": []}, {"row": ["hostname", "b"], "kids": []}]})
@@ -99,6 +108,14 @@ def build_jobs():
 
 
 _ACL_CACHE = {}
+
+
+class _RefGen:      # stands for a generator whose output refers to ...
+    pass
+
+
+class _DefGen:      # ... what this one defines
+    pass
 
 
 def run_job(job):
@@ -124,7 +141,14 @@ def run_job(job):
         rb = rulebook.get_rulebook(hw)
     rb0 = digest(canon(rb))
     fmt = registry_connector.get().match(hw).make_formatter(indent="")
-    d, p = api._diff_and_patch(E.device(hw), old, new, acl, None, False, rb=rb)
+    ref_track = None
+    if job.get("ref"):
+        from annet.reference import RefTracker
+        ref_track = RefTracker()
+        ref_track.add(_RefGen, _DefGen)
+        ref_track.config(_RefGen, cases.tree(job["ref"]["ref"]))
+        ref_track.config(_DefGen, cases.tree(job["ref"]["def"]))
+    d, p = api._diff_and_patch(E.device(hw), old, new, acl, None, False, ref_track=ref_track, rb=rb)
     res = {"diff": cases.jdiff(d), "cmds": [list(x) for x in fmt.cmd_paths(p)],
            "ordered": E.plain((patching.Orderer(rb["ordering"], job["vendor"]) if job["kind"] == "synthetic" else patching.Orderer.from_hw(hw))
                               .order_config(new))}
